@@ -252,6 +252,25 @@ fn one_case(prop: &str, g: &mut Gen, cx: &mut Ctx) {
             if is("C03") {
                 if let OCal::Reforming(r) = oc {
                     cx.check(d.is_julian() == (j < r) && d.is_gregorian() == (j >= r), || format!("{ct} {j} style flags"));
+                    // the same for the dates obtained by *constructing* the label of the day
+                    // (year/month/day, year/day-of-year, text): whatever day number such a date
+                    // reports, its label must be that day's Julian label below R and its Gregorian
+                    // label from R on, and its style flags must say which
+                    let built = [
+                        cal.at_ymd(d.year(), d.month(), d.day()).ok(),
+                        cal.at_ordinal_date(d.year(), d.ordinal()).ok(),
+                        cal.parse_date(&d.to_string()).ok(),
+                    ];
+                    for x in built.iter().flatten() {
+                        let xj = i64::from(x.julian_day_number());
+                        let (ey, em, ed) = oc.label(xj);
+                        cx.check(
+                            (i64::from(x.year()), x.month().number(), i64::from(x.day())) == (ey, em, ed)
+                                && x.is_julian() == (xj < r)
+                                && x.is_gregorian() == (xj >= r),
+                            || format!("{ct}: the date built from the label of day {j} reports day {xj} but is labelled {x}"),
+                        );
+                    }
                 }
             }
             if j < I32_MAX {
